@@ -30,11 +30,14 @@ def product(ctx, cfg):
         ctx.inconclusive.append('case generation cache/%s failed: %s\n%s' % (cfg, r.error, r.output[-1500:]))
     seen = {}
     for c in r.cases:
-        seen.setdefault(json.dumps([c['batch'], c['kind'], c['state']], sort_keys=True), c)
+        seen.setdefault(json.dumps([c['batch'], c['kind'], c['state'], c.get('cfail', False)], sort_keys=True), c)
     out = []
     for c in seen.values():
-        out.append(dict(name='c11-%s-%s-%s' % (c['kind'], ''.join(k[1] for k in c['batch']),
-                                             ''.join(c['state'][k][0] for k in sorted(c['state']))), steps=c['steps']))
+        # round 2: 'f' = pending by another caller whose request fails; -cf = the batch's own first transaction is aborted
+        out.append(dict(name='c11-%s-%s-%s%s' % (c['kind'], ''.join(k[1] for k in c['batch']),
+                                               ''.join(('f' if c['state'][k] == 'pfail' else c['state'][k][0]) for k in sorted(c['state'])),
+                                               '-cf' if c.get('cfail') else ''),
+                        steps=c['steps'], failing=bool(c.get('cfail') or 'pfail' in c['state'].values())))
     ctx.exhaustive = bool(r.ok)
     return out
 
@@ -46,6 +49,10 @@ def real(ctx, th):
             fp = ex.submit(product, ctx, 'Cases_c11.cfg' if th else 'Cases_c11_quick.cfg')
             fh = ex.submit(cc.generate, ctx, 'Gen_c11_h.cfg', 'c11-h', simulate=(600 if th else 80))
             cases, hcases = fp.result(), [c for c in fh.result() if cc.interesting(c)]
+        # the cases with a failing flight are replayed on the single-wire client with both stores (the failure is
+        # injected into the next cacheable command the server receives, whatever the wire); the others everywhere
+        allcases, cases = cases, [c for c in cases if not c.get('failing')]
+        failing = [c for c in allcases if c.get('failing')]
         multi = [c for c in cases if all(s.get('kind') != 'mget' for s in c['steps'])]
         if not th:
             hcases = hcases[:40]
@@ -53,6 +60,8 @@ def real(ctx, th):
         plan = [
             (cases, dict(store='lru', max_runs=mr)),
             (cases, dict(store='adapter', max_runs=mr)),
+            (failing, dict(store='lru', max_runs=mr)),
+            (failing, dict(store='adapter', max_runs=mr)),
             (multi, dict(store='lru', api='helper')),                       # MGetCache
             (cases, dict(store='lru', flavor='json')),                      # JSON.GET / JSON.MGET
             (multi, dict(store='adapter', flavor='json', api='helper')),    # JsonMGetCache
